@@ -12,6 +12,8 @@
 
   The second half does the same for `SSH2_Kex.parse` (the thirteen reads from `cookie = buf.read(16)` to `unused = buf.read_int()`; the objects built from
   the locals afterwards are outside the selection) against `Wire.kexParse`, and composes the two regenerated procedures (`regenerated_kexinit_roundtrip`).
+  The last part: `SSH1_PublicKeyMessage.write` / `.parse` (the ten writes; the ten reads, the tuples `skey` / `hkey` built in between are outside the
+  selection) against `Wire.pkmWrite` / `Wire.pkmParse`.
 -/
 import SshAudit.Gen.Logic6
 import SshAudit.Model.Wire
@@ -179,5 +181,81 @@ example : ∃ bs, (Gen.Logic.kex_write xWrite (xWriteList (fun s => s.map (fun c
         = some (List.replicate 16 7, ["a".toList, "bc".toList], ["k".toList], ["e".toList], ["f".toList], ["m".toList], ["n".toList], ["none".toList],
                 ["zlib".toList], ["".toList], ["".toList], true, 9) :=
   ⟨_, rfl, rfl⟩
+
+/-! ### the SSH-1 public-key message: `SSH1_PublicKeyMessage.write` / `.parse` -/
+
+/-- `wbuf.write_mpint1(v)` (the code accepts any integer: `Wire.writeMpint1Z`) -/
+def xWriteMpint1 (st : Wire.W) (v : Int) : Wire.W := do
+  let acc ← st; let x ← Wire.writeMpint1Z v; pure (acc ++ x)
+/-- `buf.read_mpint1()` -/
+def xReadMpint1 (st : R) : Int × R :=
+  match st with
+  | .ok bs => (match Wire.readMpint1 bs with
+      | .ok (v, r) => ((v : Int), .ok r)
+      | .error e => (0, .error e))
+  | .error e => (0, .error e)
+
+theorem pkm_write_eq_model (p : Wire.Pkm) :
+    (Gen.Logic.pkm_write xWrite xWriteInt xWriteMpint1 (.ok []) p.cookie (p.skBits : Int) (p.skE : Int) (p.skN : Int) (p.hkBits : Int) (p.hkE : Int) (p.hkN : Int)
+        (p.pflags : Int) (p.cmask : Int) (p.amask : Int)).2 = Wire.pkmWrite p := by
+  unfold Gen.Logic.pkm_write Wire.pkmWrite
+  simp only [xWrite, xWriteInt, xWriteMpint1, Int.natCast_nonneg, if_true, Int.toNat_natCast, C10.writeMpint1Z_nat]
+  generalize Wire.writeInt p.skBits = w1
+  generalize Wire.writeMpint1 p.skE = w2
+  generalize Wire.writeMpint1 p.skN = w3
+  generalize Wire.writeInt p.hkBits = w4
+  generalize Wire.writeMpint1 p.hkE = w5
+  generalize Wire.writeMpint1 p.hkN = w6
+  generalize Wire.writeInt p.pflags = w7
+  generalize Wire.writeInt p.cmask = w8
+  generalize Wire.writeInt p.amask = w9
+  rcases w1 with e | a1
+  · rfl
+  rcases w2 with e | a2
+  · rfl
+  rcases w3 with e | a3
+  · rfl
+  rcases w4 with e | a4
+  · rfl
+  rcases w5 with e | a5
+  · rfl
+  rcases w6 with e | a6
+  · rfl
+  rcases w7 with e | a7
+  · rfl
+  rcases w8 with e | a8
+  · rfl
+  rcases w9 with e | a9
+  · rfl
+  rfl
+
+theorem pkm_parse_eq_model (bs : Bytes) :
+    match Wire.pkmParse bs with
+    | .ok p => ∃ rest, Gen.Logic.pkm_parse xRead xReadInt xReadMpint1 (.ok bs)
+        = (some (p.cookie, (p.skBits : Int), (p.skE : Int), (p.skN : Int), (p.hkBits : Int), (p.hkE : Int), (p.hkN : Int), (p.pflags : Int), (p.cmask : Int),
+                 (p.amask : Int)), .ok rest)
+    | .error e => (Gen.Logic.pkm_parse xRead xReadInt xReadMpint1 (.ok bs)).2 = .error e := by
+  unfold Wire.pkmParse Gen.Logic.pkm_parse
+  have h8 : (8 : Int).toNat = 8 := rfl
+  simp only [xRead, Wire.read, h8]
+  rcases h1 : Wire.readInt (List.drop 8 bs) with e | ⟨v1, r1⟩
+  · simp [xReadInt, xReadMpint1, h1, bind, Except.bind]
+  rcases h2 : Wire.readMpint1 r1 with e | ⟨v2, r2⟩
+  · simp [xReadInt, xReadMpint1, h1, h2, bind, Except.bind]
+  rcases h3 : Wire.readMpint1 r2 with e | ⟨v3, r3⟩
+  · simp [xReadInt, xReadMpint1, h1, h2, h3, bind, Except.bind]
+  rcases h4 : Wire.readInt r3 with e | ⟨v4, r4⟩
+  · simp [xReadInt, xReadMpint1, h1, h2, h3, h4, bind, Except.bind]
+  rcases h5 : Wire.readMpint1 r4 with e | ⟨v5, r5⟩
+  · simp [xReadInt, xReadMpint1, h1, h2, h3, h4, h5, bind, Except.bind]
+  rcases h6 : Wire.readMpint1 r5 with e | ⟨v6, r6⟩
+  · simp [xReadInt, xReadMpint1, h1, h2, h3, h4, h5, h6, bind, Except.bind]
+  rcases h7 : Wire.readInt r6 with e | ⟨v7, r7⟩
+  · simp [xReadInt, xReadMpint1, h1, h2, h3, h4, h5, h6, h7, bind, Except.bind]
+  rcases h8' : Wire.readInt r7 with e | ⟨v8, r8⟩
+  · simp [xReadInt, xReadMpint1, h1, h2, h3, h4, h5, h6, h7, h8', bind, Except.bind]
+  rcases h9 : Wire.readInt r8 with e | ⟨v9, r9⟩
+  · simp [xReadInt, xReadMpint1, h1, h2, h3, h4, h5, h6, h7, h8', h9, bind, Except.bind]
+  simp [xReadInt, xReadMpint1, h1, h2, h3, h4, h5, h6, h7, h8', h9, bind, Except.bind, pure, Except.pure]
 
 end SshAudit.GenLogic
